@@ -127,10 +127,63 @@ def cases(tier, seed):
         ("I113", "core12", 3 if q else 4),
         ("NI23", "core12", 3 if q else 4),
     ]
-    return [dict(spec=s, alphabet=a, depth=d, tier=tier) for s, a, d in plan]
+    out = [dict(spec=s, alphabet=a, depth=d, tier=tier) for s, a, d in plan]
+    # KPM solver: values are only reproducible up to the noise of its randomly started bounds estimate, so histories
+    # are compared with a fresh computation relative to that measured noise floor (all ordered pairs of requests)
+    out.append(dict(spec="KPM", alphabet="kpm-pairs", depth=2, tier=tier))
+    return out
+
+
+def run_kpm_pairs(case):
+    import warnings
+
+    from scipy import sparse
+
+    from pymablock import block_diagonalize
+
+    def build():
+        rng = np.random.default_rng(7)
+        n, a_dim = 30, 2
+        energies = np.concatenate(([-2.0, -1.9], np.linspace(0.5, 3.0, n - a_dim)))
+        h_0 = sparse.diags_array(energies).tocsr()
+
+        def pert(scale):
+            m = rng.standard_normal((n, n)) + 1j * rng.standard_normal((n, n))
+            return sparse.csr_array(scale * (m + m.conj().T))
+
+        H = [h_0, pert(3.0), pert(0.01)]
+        return block_diagonalize(H, subspace_eigenvectors=[np.eye(n)[:, :a_dim]], direct_solver=False)
+
+    requests = [(0, (0, 0, 2, 0)), (0, (0, 0, 0, 2)), (0, (0, 0, 1, 1)), (1, (0, 0, 2, 0)), (1, (0, 0, 0, 2))]
+    V = []
+    transitions = 0
+    with warnings.catch_warnings():
+        warnings.simplefilter("ignore")
+        fresh, noise = {}, 0.0
+        for r in requests:
+            a = np.array(build()[r[0]][r[1]])
+            b = np.array(build()[r[0]][r[1]])
+            fresh[r] = a
+            noise = max(noise, np.abs(a - b).max() / max(1e-300, np.abs(a).max()))
+        for r1 in requests:
+            for r2 in requests:
+                if r1 == r2:
+                    continue
+                outs = build()
+                outs[r1[0]][r1[1]]
+                got = np.array(outs[r2[0]][r2[1]])
+                transitions += 1
+                err = np.abs(got - fresh[r2]).max() / max(1e-300, np.abs(fresh[r2]).max())
+                if err > max(1e-7, 100 * noise):
+                    V.append(f"KPM implicit mode: value of {r2} after {r1} differs from a fresh computation by {err:.1e} (noise floor between fresh computations {noise:.1e})")
+    return dict(violations=[dict(what=w, key=None) for w in V[:4]], nontrivial=True, outcome="kpm-pairs",
+                stats=dict(states=len(requests) + 1, transitions=transitions, traces_validated_against_impl=transitions, rounding_level_differences=0),
+                sample=dict(spec="KPM", alphabet="kpm-pairs", noise_floor=noise))
 
 
 def run_case(case):
+    if case["spec"] == "KPM":
+        return run_kpm_pairs(case)
     spec = worlds.SPECS[case["spec"]]
     copies = 2 if case["alphabet"] == "twin" else 1
     letters = alphabet(case["alphabet"], spec)
